@@ -36,6 +36,8 @@ def carrier_yaml(address_size=16, endian='little', origin=None, zones=None, data
                                                'offset': {'size': 8, 'byte_align': True}}}},
             # a branch whose operand is an address written as an expression; the field carries target - own address
             # a branch relative to the instruction's LAST byte, limited to -128 .. 127
+            # a 3-bit operand code taken from the statement, limited to 0..7 (a bound of 0 is a bound)
+            'nb3': {'operand_values': {'nb': {'type': 'numeric_bytecode', 'bytecode': {'size': 3, 'min': 0, 'max': 7}}}},
             'indn8': {'operand_values': {'in8': {'type': 'indirect_numeric', 'argument': {'size': 8, 'byte_align': True}}}},
             'rel8e': {'operand_values': {'rle': {'type': 'relative_address', 'offset_from_instruction_end': True,
                                                  'argument': {'size': 8, 'byte_align': True, 'min': -128, 'max': 127}}}},
@@ -63,6 +65,7 @@ def carrier_yaml(address_size=16, endian='little', origin=None, zones=None, data
             'jp4': {'bytecode': {'value': 7, 'size': 4}, 'operands': {'count': 1, 'operand_sets': {'list': ['pg4']}}},
             # [expr]: an indirect numeric operand with an 8-bit argument
             'ldn': {'bytecode': {'value': 0xD1, 'size': 8}, 'operands': {'count': 1, 'operand_sets': {'list': ['indn8']}}},
+            'nb3': {'bytecode': {'value': 0x1B, 'size': 5}, 'operands': {'count': 1, 'operand_sets': {'list': ['nb3']}}},
             'ldo': {'bytecode': {'value': 0xD0, 'size': 8}, 'operands': {'count': 1, 'operand_sets': {'list': ['inda']}}},
             'bre': {'bytecode': {'value': 0xD9, 'size': 8}, 'operands': {'count': 1, 'operand_sets': {'list': ['rel8e']}}},
             'bra': {'bytecode': {'value': 0xD8, 'size': 8}, 'operands': {'count': 1, 'operand_sets': {'list': ['rel8']}}},
